@@ -1125,6 +1125,8 @@ class ArgumentParser(ParserDeprecations, ActionsContainer, ArgumentLinking, argp
                 parent_action = None
                 if action is None:
                     if _is_branch_key(self, key):
+                        if cfg[key] is not None and not isinstance(cfg[key], (Namespace, dict)):
+                            raise NSKeyError(f"Key '{key}' expects nested keys, but got the value: {cfg[key]!r}")
                         continue
                     parent_action, subcommand = _find_parent_action_and_subcommand(self, key, exclude=_ActionConfigLoad)
                     if parent_action:
@@ -1430,6 +1432,8 @@ class ArgumentParser(ParserDeprecations, ActionsContainer, ArgumentLinking, argp
         elif isinstance(action, _ActionConfigLoad):
             if isinstance(value, str):
                 value = action.check_type(value, self)
+            elif value is not None and not isinstance(value, (Namespace, dict)):
+                raise TypeError(f'Parser key "{key}": Expected nested keys or a config, but got the value: {value!r}')
         elif hasattr(action, "_check_type"):
             with parser_context(parent_parser=self):
                 value = action._check_type_(value, cfg=cfg)  # type: ignore[attr-defined]
